@@ -544,6 +544,20 @@ def run(ctx: Ctx, a_ok: bool):
     for _ in range(n):
         case = gen_base(ctx.rng, ctx.tier)
         pairs.append((case, gen_tf(ctx.rng, case)))
+    # directed pairs: the contralateral side lists the LNLs in REVERSE order (nothing else changes) and the involvement
+    # pattern of that side distinguishes the LNLs
+    extra = []
+    for case, _tf in pairs:
+        lnls = gen.lnls_of(case["graph"])
+        if case["cls"] == "bi" and len(lnls) >= 2 and len(extra) < 12:
+            c2 = copy.deepcopy(case)
+            vals = [True, False] if case["graph"]["base"] == 2 else ["macro", "healthy"]
+            c2["inv"]["contra"] = {lnls[0]: vals[0], lnls[1]: vals[1]}
+            nodes = gen.tumors_of(case["graph"]) + lnls
+            tf2 = {"node_rank": None, "conn_rank": None, "rename": None, "mod_rename": None, "mod_rank": None,
+                   "col_seed": None, "swap": False, "contra_rank": {n: i for i, n in enumerate(reversed(nodes))}}
+            extra.append((c2, tf2))
+    pairs += extra
     reported = []
     for case, tf in pairs:
         ctx.count({"case": case, "tf": tf}, is_nontrivial(case, tf), f"{case['cls']}-base{case['graph']['base']}-{case['mode']}")
